@@ -366,7 +366,8 @@ class DateTime(datetime.datetime, Date):
         tz = pendulum._safe_timezone(tz)
 
         dt = self
-        if not self.timezone:
+        if self.tzinfo is None:
+            # A naive value is read with the post-transition offset
             dt = dt.replace(fold=1)
 
         return tz.convert(dt)
